@@ -774,6 +774,10 @@ def shards(tier):
             items.append({"kind": "stateless", "ntc": ntc, "subs": subs_, "stepids": stepids, "unknown": unknown, "depth": depth, "part": part, "parts": n,
                           "all_decoded": all_decoded})
 
+    items.append({"kind": "many", "ntc": 70, "finish": [1, 33]})
+    items.append({"kind": "many", "ntc": 130, "finish": [2, 64, 65, 129]})
+    if not q:
+        items.append({"kind": "many", "ntc": 300, "finish": [1, 100, 255, 256, 257]})
     if q:
         bfs(16, 1, [1, 2], 3, subs, "full")
         sl(32, 1, subs, [1], True, 6)
@@ -799,8 +803,37 @@ def model_state_norm(st, ntc):
     return out
 
 
+def many_history(ntc, finish):
+    """one long scripted history with MANY tracked telecommands (the other modes have <= 3): telecommand t is registered, those in
+    `finish` are verified to the end at once, a completed purge comes at the very end - after every event the whole tracker state
+    is compared with the table (what is said about one telecommand never depends on how many others are tracked)"""
+    hist = []
+    for t in range(1, ntc + 1):
+        hist.append(("add_tc", t))
+        if t in finish:
+            hist += [("tm", t, 1, 0), ("tm", t, 3, 0), ("tm", t, 7, 0)]
+    hist += [("tm", 1, 5, 1), ("add_tc", 2), ("remove_completed",), ("tm", ntc, 1, 0)]
+    return tuple(hist)
+
+
+def run_many(rec, ntc, finish):
+    impl = Impl(ntc)
+    hist = many_history(ntc, set(finish))
+    st = tuple([None] * ntc)
+    for i in range(1, len(hist) + 1):
+        check_hist(rec, impl, hist[:i], st, False)
+        st, _ = table_step(st, hist[i - 1], ntc)
+    rec.evaluations += len(hist)
+    rec.nontrivial += len(hist)
+    rec.count("many_telecommand_history_events", len(hist))
+    rec.outcome("many/ntc=%d" % ntc)
+
+
 def run_shard(item):
     rec = Rec(PROPERTY, {k: v for k, v in item.items() if k != "tlc"})
+    if item["kind"] == "many":
+        run_many(rec, item["ntc"], item["finish"])
+        return rec.result()
     if item["kind"] == "edges":
         with open(item["file"], "rb") as f:
             data = pickle.load(f)
